@@ -26,9 +26,10 @@ type TokSpec struct {
 
 // C10Case: tokens and the whitespace string of every gap (before the first, between, after the last).
 type C10Case struct {
-	Toks []TokSpec `json:"toks"`
-	Gaps []string  `json:"gaps"`
-	Pre  int       `json:"pre,omitempty"` // > 0: the source is the second file of its set, behind a file of that many bytes
+	Toks  []TokSpec `json:"toks"`
+	Gaps  []string  `json:"gaps"`
+	Named bool      `json:"named,omitempty"` // the root sequence carries a name (SeqOf(...).Name("pair"))
+	Pre   int       `json:"pre,omitempty"`   // > 0: the source is the second file of its set, behind a file of that many bytes
 }
 
 func (c *C10Case) source() string {
@@ -304,7 +305,7 @@ func modelC10(d []byte, toks []TokSpec) c10Model {
 	return m
 }
 
-func parseC10(src string, toks []TokSpec, pre int) (node parsley.Node, base int, err error, perr error) {
+func parseC10(src string, toks []TokSpec, pre int, named ...bool) (node parsley.Node, base int, err error, perr error) {
 	defer func() {
 		if r := recover(); r != nil {
 			perr = fmt.Errorf("panic: %v", r)
@@ -315,7 +316,12 @@ func parseC10(src string, toks []TokSpec, pre int) (node parsley.Node, base int,
 		parsers[i] = tokParser(ts)
 	}
 	ctx, _, base := NewCtxAt(src, pre)
-	node, err = parsley.Parse(ctx, combinator.Sentence(combinator.SeqOf(parsers...)))
+	seq := combinator.SeqOf(parsers...)
+	if len(named) > 0 && named[0] {
+		// a name replaces a not-found error at the sequence start, never a whitespace error
+		seq = seq.Name("pair")
+	}
+	node, err = parsley.Parse(ctx, combinator.Sentence(seq))
 	return
 }
 
@@ -340,8 +346,13 @@ func checkC10(ci interface{}, st *Stats) error {
 		return Discard{"malformed case"}
 	}
 	for _, g := range c.Gaps {
+		// whitespace, or one of the bytes that look like whitespace and are none (vertical tab, NUL,
+		// a lone carriage return, NEL, NBSP, line separator): the model then expects a mismatch
+		if strings.Trim(g, " \t\n\f\r\v\x00\u0085\u00a0\u2028") != "" {
+			return Discard{"gap is not a whitespace-like string"}
+		}
 		if strings.Trim(g, " \t\n\f\r") != "" || strings.Contains(strings.ReplaceAll(g, "\r\n", ""), "\r") {
-			return Discard{"gap is not a whitespace string"}
+			st.Class("gap with a byte that only looks like whitespace (VT, NUL, lone CR, NEL, NBSP, LS)")
 		}
 	}
 	src := c.source()
@@ -352,7 +363,7 @@ func checkC10(ci interface{}, st *Stats) error {
 		}
 	}
 	m := modelC10(d, c.Toks)
-	node, base, err, perr := parseC10(src, c.Toks, c.Pre)
+	node, base, err, perr := parseC10(src, c.Toks, c.Pre, c.Named)
 	if perr != nil {
 		return perr
 	}
@@ -467,7 +478,7 @@ func checkC10(ci interface{}, st *Stats) error {
 		c2 := &C10Case{Toks: c.Toks, Gaps: gaps2}
 		src2 := c2.source()
 		if m2 := modelC10(normCRLF([]byte(src2)), c.Toks); !m2.mismatch && m2.wantErr == "" && !m2.lenient {
-			node2, _, err2, perr2 := parseC10(src2, c.Toks, c.Pre)
+			node2, _, err2, perr2 := parseC10(src2, c.Toks, c.Pre, c.Named)
 			if perr2 != nil {
 				return perr2
 			}
@@ -501,7 +512,7 @@ func genC10(t *rapid.T) interface{} {
 		case 3:
 			ts.Text = fmt.Sprint(rapid.IntRange(0, 99).Draw(t, "int"))
 		case 4:
-			ts.Text = rapid.SampledFrom([]string{`"s"`, `""`, `"a b"`, `"\n"`}).Draw(t, "str")
+			ts.Text = rapid.SampledFrom([]string{`"s"`, `""`, `"a b"`, `"\n"`, `"\t\t"`, `"é"`, `"\u0041b"`, `"x\\y"`}).Draw(t, "str")
 		case 5:
 			ts.Text = rapid.SampledFrom([]string{"b", "bb", "bbb"}).Draw(t, "bs")
 		case 6:
@@ -550,8 +561,14 @@ func genC10(t *rapid.T) interface{} {
 				g = " " // neighbours that would merge into one token
 			}
 		}
+		if rapid.IntRange(0, 24).Draw(t, "lookalike") == 7 {
+			junk := rapid.SampledFrom([]string{"\v", "\v", "\x00", "\r", "\u0085", "\u00a0", "\u2028"}).Draw(t, "lookalikeByte")
+			k := rapid.IntRange(0, len(g)).Draw(t, "lookalikeAt")
+			g = g[:k] + junk + g[k:]
+		}
 		c.Gaps = append(c.Gaps, g)
 	}
+	c.Named = rapid.IntRange(0, 2).Draw(t, "named") == 0
 	switch rapid.IntRange(0, 5).Draw(t, "place") {
 	case 0, 1:
 		c.Pre = rapid.IntRange(1, 12).Draw(t, "pre")
